@@ -18,8 +18,6 @@ import (
 	"verif/harness/vstats"
 )
 
-const f7Key = "zstd-read-offset-ignored"
-
 var recRead = vstats.New("TestC14Read")
 
 type rcase struct {
@@ -43,10 +41,6 @@ func (c *rcase) String() string {
 
 // TestC14Read: ByteStream.Read into a fake stream.
 func TestC14Read(t *testing.T) {
-	f7known := vstats.KnownListed("C14", f7Key)
-	if f7known {
-		probeF7()
-	}
 	rapid.Check(t, func(t *rapid.T) {
 		vc := recRead.Begin()
 		c := &rcase{failAt: -1}
@@ -205,11 +199,6 @@ func TestC14Read(t *testing.T) {
 		case !inRange:
 			// error or no data, never other bytes
 			if err == nil && (!decodable || len(got) != 0) {
-				if c.zc && f7known {
-					recRead.Excluded(f7Key)
-					vc.Class("excluded_f7")
-					break
-				}
 				t.Fatalf("read at offset %d outside the %d byte object succeeded and delivered %s: %s", c.offset, size, short(got), c)
 			}
 		default:
@@ -220,32 +209,10 @@ func TestC14Read(t *testing.T) {
 				t.Fatalf("compressed read delivered a stream that does not decode: %s", c)
 			}
 			if !bytes.Equal(got, suffix) {
-				if c.zc && f7known && c.offset != 0 && bytes.Equal(got, c.data) {
-					recRead.Excluded(f7Key)
-					vc.Class("excluded_f7")
-					break
-				}
 				t.Fatalf("read at offset %d of the %d byte object delivered %s, want exactly the suffix %s: %s", c.offset, size, short(got), short(suffix), c)
 			}
 			vc.Class("exact_suffix")
 		}
 		vc.End()
 	})
-}
-
-// probeF7 is the dedicated probe for the listed finding: a compressed
-// read ignores read_offset.
-func probeF7() {
-	data := []byte("0123456789")
-	d := mkDigest("", fnSHA256, data)
-	mem := backends.NewMem("cas", digest.KeyWithoutInstance)
-	mem.Set(d, data)
-	srv := grpcservers.NewByteStreamServer(mem, 1<<16, pools()[0])
-	out := &fakeReadStream{ctx: context.Background(), failAt: -1}
-	err := srv.Read(&bytestream.ReadRequest{ResourceName: readName("", true, fnSHA256, d.GetHashString(), "10"), ReadOffset: 4}, out)
-	if got, derr := zDecode(out.concat()); err == nil && derr == nil && bytes.Equal(got, data) {
-		what := "compressed-blobs/zstd read with read_offset=4 of a 10 byte object streams all 10 bytes"
-		recRead.KnownFinding(f7Key, what)
-		fmt.Printf("KNOWN-FINDING: property=C14 key=%s %s\n", f7Key, what)
-	}
 }
